@@ -49,6 +49,8 @@ type Op struct {
 	Q   *Qry     `json:"q,omitempty"`
 	Ws  []uint64 `json:"ws,omitempty"`   // forget (model-only histories)
 	Pre []*Blk   `json:"pre,omitempty"`  // queryp: pre-confirmed blocks above the head, oldest first
+	FB  *BID     `json:"fb,omitempty"`   // rpcq: from_block / to_block ids of starknet_getEvents
+	TB  *BID     `json:"tb,omitempty"`
 	S   uint64   `json:"salt,omitempty"` // light
 }
 
@@ -176,6 +178,9 @@ type realRun struct {
 	naive    [][]nev // per block
 	viols    []viol
 	pre      *preChain
+	rpc      *rpcStage
+	hashes   []string // block hashes of the canonical chain
+	l1       *uint64
 	quiet    bool // shrinking: no counters
 	long     bool
 }
@@ -251,6 +256,9 @@ func (r *realRun) store(b *Blk) bool {
 		hx.Fatalf("read back %d events, stored %d", len(evs), i)
 	}
 	r.naive = append(r.naive, evs)
+	hdr, err := r.node.BC.HeadsHeader()
+	hx.Must(err)
+	r.hashes = append(r.hashes, hdr.Hash.String())
 	return true
 }
 
@@ -264,6 +272,7 @@ func (r *realRun) revert() bool {
 		return false
 	}
 	r.naive = r.naive[:len(r.naive)-1]
+	r.hashes = r.hashes[:len(r.hashes)-1]
 	return true
 }
 
@@ -275,6 +284,7 @@ func (r *realRun) restart(g bool) {
 		r.or.Ask("restart u", 1)
 	}
 	r.node = r.node.Reopen(r.newState)
+	r.rpc = nil
 }
 
 func (r *realRun) naiveScan(q *Qry) (short []string, full []string) {
@@ -724,6 +734,15 @@ func runReal(c *hx.Ctx, or *hx.Oracle, h *History, cfgs []pcfg, quiet bool) []vi
 			r.queryX(o.Q, o.Pre, cfgs)
 		case "sweep":
 			r.sweep(uint64(o.N))
+		case "rpcq":
+			r.rpcQuery(o.Q, o.FB, o.TB, o.Pre)
+		case "l1":
+			if n := uint64(o.N); n < uint64(len(r.naive)) {
+				b, err := r.node.BC.BlockByNumber(n)
+				hx.Must(err)
+				hx.Must(r.node.BC.SetL1Head(&core.L1Head{BlockNumber: n, BlockHash: b.Hash, StateRoot: b.GlobalStateRoot}))
+				r.l1 = &n
+			}
 		}
 	}
 	// the naive table must still be what the database holds
@@ -851,6 +870,29 @@ func genQueryP(rng *hx.RNG, height int, addrs []uint64) Op {
 	return Op{K: "queryp", Q: q, Pre: pre}
 }
 
+// a starknet_getEvents request with random block ids (numbers up to 3 above the head, hashes, tags)
+func genRPCQ(rng *hx.RNG, height int, addrs []uint64) Op {
+	bid := func() *BID {
+		switch rng.Intn(8) {
+		case 0:
+			return nil
+		case 1:
+			return &BID{K: "latest"}
+		case 2:
+			return &BID{K: "pre"}
+		case 3:
+			return &BID{K: "h", N: uint64(rng.Intn(height + 2))}
+		}
+		return &BID{K: "n", N: uint64(rng.Intn(height + 4))}
+	}
+	op := genQueryP(rng, height, addrs)
+	op.K, op.FB, op.TB = "rpcq", bid(), bid()
+	if rng.Chance(40) {
+		op.Pre = nil
+	}
+	return op
+}
+
 func genShort(rng *hx.RNG) *History {
 	h := &History{Kind: "real", W: core.NumBlocksPerFilter, NewState: rng.Bool()}
 	height := 0
@@ -875,15 +917,17 @@ func genShort(rng *hx.RNG) *History {
 			h.Ops = append(h.Ops, Op{K: "restart", G: rng.Bool()})
 		case x < 90:
 			h.Ops = append(h.Ops, Op{K: "query", Q: genQuery(rng, height-1, nil)})
-		default:
+		case x < 95:
 			h.Ops = append(h.Ops, genQueryP(rng, height, addrs))
+		default:
+			h.Ops = append(h.Ops, genRPCQ(rng, height, addrs))
 		}
 	}
 	var qs []Op
 	for i := 0; i < 3; i++ {
 		qs = append(qs, Op{K: "query", Q: genQuery(rng, height-1, nil)})
 	}
-	qs = append(qs, genQueryP(rng, height, addrs))
+	qs = append(qs, genQueryP(rng, height, addrs), genRPCQ(rng, height, addrs))
 	h.Ops = append(h.Ops, qs...)
 	h.Ops = append(h.Ops, Op{K: "restart", G: false})
 	h.Ops = append(h.Ops, qs...)
@@ -1011,6 +1055,58 @@ func genLong(rng *hx.RNG, shape int) *History {
 	addQueries(3, cur)
 	h.Ops = append(h.Ops, Op{K: "restart", G: false})
 	addQueries(2, cur)
+	return h
+}
+
+// long histories, second family: reorgs of depth 1..3 around a window edge (head on the last block of a
+// window, on the first block of the next one, or one above), the window cached by queries before and between
+// the reverts, different blocks stored at the same heights afterwards
+func genEdge(rng *hx.RNG) *History {
+	W := int(core.NumBlocksPerFilter)
+	h := &History{Kind: "real", W: uint64(W), NewState: rng.Bool()}
+	sets := [][]uint64{{10, 11}, {12, 13}}
+	at := map[int]bool{60 + rng.Intn(60): true, W - 3: true, W - 2: true}
+	height := W - 1 + rng.Intn(3) // head = W-2, W-1 or W before the first round
+	h.Ops = buildTo(h.Ops, rng, 0, height, at, sets[0], 0)
+	points := []uint64{0, uint64(W - 3), uint64(W - 1), uint64(W)}
+	queries := func(k int) {
+		for i := 0; i < k; i++ {
+			h.Ops = append(h.Ops, Op{K: "query", Q: genQuery(rng, height-1, points)})
+		}
+		h.Ops = append(h.Ops, Op{K: "query", Q: &Qry{From: 0, To: uint64(height + 2)}})
+	}
+	rounds := 3 + rng.Intn(2)
+	for round := 1; round <= rounds; round++ {
+		set := sets[round%2]
+		// grow to one of the edge heights with event blocks
+		target := W - 1 + rng.Intn(3) + 1
+		for height < target {
+			b := genBlock(rng, set, uint64(round))
+			if len(b.Txs) == 0 {
+				b.Txs = [][]chain.Ev{{genEvent(rng, set)}}
+			}
+			h.Ops = append(h.Ops, Op{K: "store", Blk: b})
+			height++
+		}
+		queries(1)
+		d := 1 + rng.Intn(3)
+		for i := 0; i < d; i++ {
+			h.Ops = append(h.Ops, Op{K: "revert", N: 1})
+			height--
+			if rng.Chance(50) {
+				queries(0)
+			}
+		}
+		if rng.Chance(15) {
+			h.Ops = append(h.Ops, Op{K: "restart", G: rng.Bool()})
+		}
+	}
+	set := sets[(rounds+1)%2]
+	for i := 0; i < 2; i++ {
+		h.Ops = append(h.Ops, Op{K: "store", Blk: &Blk{Txs: [][]chain.Ev{{genEvent(rng, set), genEvent(rng, set)}}, Salt: 9}})
+		height++
+	}
+	queries(2)
 	return h
 }
 
@@ -1210,7 +1306,13 @@ func corpus() []*History {
 		// exactly at W and once at W+2 - before any reorg, so the cache is fresh)
 		{Kind: "real", W: uint64(W), NewState: true, Ops: []Op{
 			{K: "light", N: 100}, {K: "store", Blk: evB(10)}, {K: "light", N: W - 1 - 101},
-			{K: "store", Blk: bnd(10)}, {K: "store", Blk: bnd(10)}, {K: "sweep", N: W},
+			// reorgs of depth 1 and 2 at the window edge: head on the LAST block of window 0 (the window has just
+			// been persisted and is cached by a query), the block is replaced by one with other events; then the
+			// mirror with the head on the first block of the next window and a query between the two reverts
+			{K: "store", Blk: evB(12)}, qa(12, W+2), {K: "revert", N: 1}, {K: "store", Blk: bnd(11)}, qa(11, W+2), qa(12, W+2),
+			{K: "store", Blk: evB(13)}, qa(13, W+2), {K: "revert", N: 1}, qa(11, W+2), {K: "revert", N: 1},
+			{K: "store", Blk: bnd(10)}, {K: "store", Blk: bnd(10)}, qa(10, W+2), qa(11, W+2), qa(13, W+2),
+			{K: "sweep", N: W},
 			{K: "store", Blk: bnd(10)}, {K: "light", N: 1}, {K: "sweep", N: W}, qa(10, W+2),
 			{K: "revert", N: W + 3 - 51}, {K: "light", N: 49, S: 1}, {K: "store", Blk: b12}, {K: "light", N: W - 101 + 3, S: 1},
 			qa(12, W+2), qa(10, W+2)}},
@@ -1226,7 +1328,38 @@ func corpus() []*History {
 		// pre-confirmed blocks above the head: wildcard key positions, alternatives, address sets, ranges that
 		// start below / at / above the head, tokens crossing the canonical / pre-confirmed border
 		{Kind: "real", W: uint64(W), NewState: false, Ops: preOps()},
+		// starknet_getEvents through rpc v8 / v9 / v10: every kind of block id, incl. numbers above the head
+		{Kind: "real", W: uint64(W), NewState: true, Ops: rpcOps()},
 	}
+}
+
+func rpcOps() []Op {
+	pre := []*Blk{
+		{Txs: [][]chain.Ev{{{From: 10, Keys: []uint64{1, 2}}, {From: 11, Keys: []uint64{3}}}}},
+		{Txs: [][]chain.Ev{{{From: 10, Keys: []uint64{1}}}, {{From: 10, Keys: []uint64{2, 2}}}}},
+	}
+	ops := []Op{{K: "store", Blk: evB(10)}, {K: "store", Blk: bnd(10)}, {K: "light", N: 1}, {K: "store", Blk: bnd(11)},
+		{K: "store", Blk: bnd(10)}, {K: "l1", N: 2}} // head = 4
+	froms := []*BID{nil, {K: "n", N: 0}, {K: "n", N: 3}, {K: "n", N: 4}, {K: "n", N: 5}, {K: "n", N: 6}, {K: "n", N: 9},
+		{K: "h", N: 1}, {K: "h", N: 77}, {K: "latest"}, {K: "pre"}, {K: "l1"}}
+	tos := []*BID{nil, {K: "latest"}, {K: "pre"}, {K: "n", N: 3}, {K: "n", N: 7}, {K: "h", N: 4}, {K: "l1"}, {K: "n", N: 0}}
+	filters := []Qry{{}, {Addrs: []uint64{10}}, {Keys: [][]uint64{{}, {2}}}, {Addrs: []uint64{10, 11}, Keys: [][]uint64{{1, 2}}}}
+	i := 0
+	for _, fb := range froms {
+		for j, tb := range tos {
+			if (i+j)%2 == 1 && fb != nil && fb.K != "n" {
+				continue
+			}
+			q := filters[i%len(filters)]
+			op := Op{K: "rpcq", Q: &q, FB: fb, TB: tb}
+			if i%3 != 2 {
+				op.Pre = pre
+			}
+			ops = append(ops, op)
+			i++
+		}
+	}
+	return ops
 }
 
 func bnd(a uint64) *Blk {
@@ -1314,7 +1447,12 @@ func main() {
 	}
 	longCfgs = append(longCfgs, pcfg{1, 1}, pcfg{2, 3}, pcfg{3, 7}, pcfg{1000, 0})
 	for i := 0; i < nLong; i++ {
-		h := genLong(rng.Fork(uint64(1000+i)), 2+i)
+		var h *History
+		if (c.Seed+uint64(i))%2 == 0 {
+			h = genLong(rng.Fork(uint64(1000+i)), 2+i)
+		} else {
+			h = genEdge(rng.Fork(uint64(2000 + i)))
+		}
 		vs := runReal(c, or, h, longCfgs, false)
 		c.Hist["history:long"]++
 		if i < 2 {
